@@ -160,6 +160,38 @@ def flag_cases(tier, seed):
     return cases
 
 
+def setdur_cases(tier, seed):
+    """EngineBuilder.set_duration: the documented schedule of its arguments (reference of C16) recorded
+    with the configured warm-up AND posterior thinning."""
+    from mc.ref import c16_epochs as r16
+
+    names = {r16.INITIAL: "INITIAL_VALUES", r16.FAST: "FAST_ADAPTATION", r16.SLOW: "SLOW_ADAPTATION", r16.POSTERIOR: "POSTERIOR"}
+    cases = []
+    grid = [(160, 12, 10, tp, tw) for tp in (1, 3) for tw in (1, 2, 4)] if tier == "quick" else \
+        [(w, 12, t, tp, tw) for w in (160, 185) for t in (10, 35) for tp in (1, 2, 3) for tw in (1, 2, 4, 5)]
+    for w, p_, t, tp, tw in grid:
+        sched = [[names[ty], d, th] for ty, d, th in r16.stan_schedule(w, p_, 75, t, 25, tp, tw)]
+        cfg = {"schedule": sched, "chains": 2, "kernels": KERNELS, "shapes": SHAPE_ROT[0], "tracked": None, "included": [], "excluded": [],
+               "store_kernel_states": False, "qg": True, "seed": seed, "set_duration": [w, p_, t, tp, tw], "log_len": 256}
+        cases.append({"kind": "setdur", "cfg": cfg, "variants": [{"via": "set_duration"}]})
+    return cases
+
+
+def reuse_cases(tier, seed):
+    """One results object, asked again after the engine went on sampling (it shares the engine's chains)."""
+    scheds = [
+        [INIT, ["POSTERIOR", 2, 1], ["POSTERIOR", 3, 3]],
+        [INIT, ["BURNIN", 2, 2], ["POSTERIOR", 4, 2], ["POSTERIOR", 2, 1]],
+    ]
+    cases = []
+    for sched in scheds:
+        for prefix in range(1, len(sched)):
+            cfg = {"schedule": sched, "chains": 2, "kernels": KERNELS, "shapes": SHAPE_ROT[0], "tracked": None, "included": [], "excluded": [],
+                   "store_kernel_states": False, "qg": False, "seed": seed, "prefix": prefix, "via": "ctor", "chunk": 1}
+            cases.append({"kind": "reuse", "cfg": cfg, "variants": [1]})
+    return cases
+
+
 def chainclass_cases(tier, seed):
     dmax = 8 if tier == "quick" else 10
     cases = []
@@ -183,7 +215,7 @@ def weight(case):
 
 
 def units(tier, seed):
-    cases = sched_cases(tier, seed) + key_cases(tier, seed) + flag_cases(tier, seed) + chainclass_cases(tier, seed)
+    cases = sched_cases(tier, seed) + key_cases(tier, seed) + flag_cases(tier, seed) + setdur_cases(tier, seed) + reuse_cases(tier, seed) + chainclass_cases(tier, seed)
     target = 36 if tier == "quick" else 150
     total = sum(weight(c) for c in cases)
     n_units = max(1, -(-total // target))
@@ -253,6 +285,8 @@ def check_engine_case(res, case):
     for var in case["variants"]:
         cfg = dict(cfg0, **var)
         cfg["prefix"] = len(sched)
+        if var["via"] == "set_duration":
+            var = dict(var, args=cfg["set_duration"])
         tracked = el.default_tracked(cfg)
         ctx = f"schedule {sched}, via {var['via']}, chunk {var.get('chunk', 'gcd')}, tracked {cfg.get('tracked')}, included {cfg.get('included')}, excluded {cfg.get('excluded')}"
         try:
@@ -398,6 +432,60 @@ def check_engine_case(res, case):
                     "stored_first_elements_chain0": {k: v[0].reshape(v.shape[1], -1)[:, 0].tolist() for k, v in obs["samples"].items()}}, limit=1)
 
 
+def check_reuse_case(res, case):
+    """results = engine.get_results() after the first ``prefix`` epochs; every accessor is called; then
+    the remaining epochs are appended and sampled one by one and the SAME results object is asked again:
+    what it returns is the (posterior part of the) chain recorded so far."""
+    import numpy as np
+
+    from mc import enginelab as el
+
+    cfg = case["cfg"]
+    sched = cfg["schedule"]
+    res.states += 1
+    lab = el.build(cfg)
+    tracked = el.default_tracked(cfg)
+    try:
+        for _ in range(cfg["prefix"]):
+            lab.op("n")
+        r = lab.results()
+        for k in range(cfg["prefix"], len(sched) + 1):
+            done = sched[:k]
+            res.executions += 1
+            res.transitions += 1
+            has_post = any(s[0] == "POSTERIOR" for s in done)
+            got = {"positions": np_tree(dict(r.get_samples())),
+                   "posterior-positions": np_tree(dict(r.get_posterior_samples())) if has_post else None,
+                   "posterior-infos": {i: np_tree(vars(v)) for i, v in r.get_posterior_transition_infos().items()} if has_post else None}
+            for c in range(cfg["chains"]):
+                exp = ref.expected(done, cfg["kernels"], cfg["shapes"], tracked, c)
+                for name, key_exp in (("positions", "positions"), ("posterior-positions", "posterior_positions")):
+                    if got[name] is None:
+                        continue
+                    for key in tracked:
+                        g, e = got[name][key][c], exp[key_exp][key]
+                        if g.shape[0] != e.shape[0] or not ref.arrays_equal(g, e):
+                            res.violation(name, "stale-results-object", {"kind": "reuse", "cfg": cfg, "sampled_epochs": k, "key": key},
+                                          f"{name}[{key!r}] of a results object obtained after {cfg['prefix']} epoch(s), asked after {k} sampled epochs of {sched}: "
+                                          f"{g.shape[0]} stored states {g.reshape(g.shape[0], -1)[:, 0].tolist()}, the recorded chain holds {e.reshape(e.shape[0], -1)[:, 0].tolist()}")
+                            return
+                if got["posterior-infos"] is not None:
+                    for ident, v in got["posterior-infos"].items():
+                        if v["position_moved"][c].tolist() != exp["posterior_tags"]:
+                            res.violation("posterior-infos", "stale-results-object", {"kind": "reuse", "cfg": cfg, "sampled_epochs": k},
+                                          f"posterior infos[{ident}] asked after {k} sampled epochs of {sched}: tags {v['position_moved'][c].tolist()} != {exp['posterior_tags']}")
+                            return
+            res.outcome("reuse", "asked-after", k, "obtained-after", cfg["prefix"], "posterior" if has_post else "no-posterior")
+            if k < len(sched):
+                lab.op("a")
+                lab.op("n")
+    except Exception as e:  # noqa: BLE001
+        where = c07.liesel_raised(e)
+        if where is None:
+            raise
+        res.violation("results", f"raised-{type(e).__name__}-{where}", {"kind": "reuse", "cfg": cfg}, f"{type(e).__name__}: {e}")
+
+
 # ---------------------------------------------------------------------------------
 # chain classes alone
 # ---------------------------------------------------------------------------------
@@ -516,6 +604,8 @@ def run_unit(unit):
             check_listchain(res, case)
         elif case["kind"] == "manager":
             check_manager(res, case)
+        elif case["kind"] == "reuse":
+            check_reuse_case(res, case)
         else:
             check_engine_case(res, case)
     return res
